@@ -355,6 +355,33 @@ func ruleNoSwallowedErrors(r *Run, id string, floor int, dropped bool, pkgs ...s
 						}
 					}
 					r.Check(fmt.Sprintf("%s errtest#%d of %s", name, j, calleeShort(c)), !empty, posOf(p, ifs), name, "the branch taken when "+calleeShort(c)+" failed is empty: execution continues as if the call had succeeded")
+					// wrong variable: the failure edge returns an error value that an earlier test already proved nil
+					// (`if uerr := f(); uerr != nil { return err }` after `if err != nil { return err }`)
+					if fe != nil {
+						if ret := firstReturnFrom(fe); ret != nil {
+							rs := retResults(ret)
+							if len(rs) > 0 {
+								last := rs[len(rs)-1]
+								if last != ev && !sameValue(last, ev) && !isNilConst(last) {
+									provenNil := false
+									for _, t2 := range nilTestsOf(fn, last) {
+										if t2 == ifs {
+											continue
+										}
+										if ne2 := nilEdge(t2, t2.Cond.(*ssa.BinOp).X); ne2 != nil && edgeDominates(t2.Block(), ne2, ret.Block()) {
+											provenNil = true
+										} else if ne2 := nilEdge(t2, t2.Cond.(*ssa.BinOp).Y); ne2 != nil && edgeDominates(t2.Block(), ne2, ret.Block()) {
+											provenNil = true
+										}
+									}
+									if provenNil {
+										j++
+										r.Check(fmt.Sprintf("%s errtest#%d of %s returns another error", name, j, calleeShort(c)), false, posOf(p, ret), name, "when "+calleeShort(c)+" fails, the function returns a different error value which an earlier test on this path proved to be nil: the failure is reported as success")
+									}
+								}
+							}
+						}
+					}
 					// inverted test: the branch on which the error is nil hands that (nil) error back while the failure
 					// edge carries on with the call's other results
 					if ret := firstReturnFrom(ne); ret != nil && fe != nil {
